@@ -23,6 +23,12 @@ pub enum FileCase {
     /// one: arrangement `arr` (see `uneven_chroms`)
     WigUneven { arr: u32, opts: Opts },
     BedUneven { arr: u32, opts: Opts },
+    /// chromosome names of unusual shape (prefix chains, 255 / 256 / 1000 bytes, non-ASCII): name
+    /// set `set` (see `name_sets`), core layouts rotated over the chromosomes
+    WigNames { set: u32, lay: u32, opts: Opts },
+    BedNames { set: u32, lay: u32, opts: Opts },
+    /// one chromosome, three entries, the first with a `rest` of exactly `len` bytes
+    BedLongRest { len: u32, opts: Opts },
     /// one chromosome, two entries, a supplied autoSql of exactly `len` bytes
     BedLongSql { len: u32, opts: Opts },
     /// bigwiginfo / bigbedinfo on an encoder-written file (C06 tool part)
@@ -126,6 +132,48 @@ pub fn expand(c: &FileCase) -> FileCase {
             autosql: None,
             opts: opts.clone(),
         }),
+        FileCase::WigNames { set, lay, opts } => {
+            let core = core_wig_layouts();
+            FileCase::Wig(WigCase {
+                chroms: name_sets()[*set as usize]
+                    .iter()
+                    .enumerate()
+                    .map(|(ci, n)| WChrom { name: n.clone(), len: L, items: wig_items(&core[(*lay as usize + ci * 3) % core.len()], *lay as usize + ci, ci) })
+                    .collect(),
+                extra_sizes: vec![],
+                allow_ooo: false,
+                opts: opts.clone(),
+            })
+        }
+        FileCase::BedNames { set, lay, opts } => {
+            let core = core_bed_layouts();
+            FileCase::Bed(BedCase {
+                chroms: name_sets()[*set as usize]
+                    .iter()
+                    .enumerate()
+                    .map(|(ci, n)| BChrom { name: n.clone(), len: L, items: bed_items(&core[(*lay as usize + ci * 3) % core.len()], *lay as usize + ci) })
+                    .collect(),
+                extra_sizes: vec![],
+                allow_ooo: false,
+                autosql: None,
+                opts: opts.clone(),
+            })
+        }
+        FileCase::BedLongRest { len, opts } => FileCase::Bed(BedCase {
+            chroms: vec![BChrom {
+                name: "c".into(),
+                len: L,
+                items: vec![
+                    BItem { s: 1, e: 4, rest: (0..*len).map(|i| if i % 97 == 96 { '\t' } else { (b'A' + (i % 23) as u8) as char }).collect() },
+                    BItem { s: 2, e: 9, rest: "n2".into() },
+                    BItem { s: 9, e: 12, rest: "n3\t7".into() },
+                ],
+            }],
+            extra_sizes: vec![],
+            allow_ooo: false,
+            autosql: None,
+            opts: opts.clone(),
+        }),
         FileCase::BedLongSql { len, opts } => FileCase::Bed(BedCase {
             chroms: vec![BChrom {
                 name: "c".into(),
@@ -155,6 +203,41 @@ pub fn uneven_chroms(arr: u32) -> Vec<(String, u32, Vec<(u32, u32)>)> {
         3 => vec![long("u1", vec![(60_000, 60_001)]), short("u2"), long("u3", vec![(0, 1), (99_990, 100_000)])],
         _ => vec![tiny("u1"), long("u2", vec![(70_000, 70_010), (70_010, 70_020), (80_000, 80_001), (80_001, 80_002)]), short("u3"), tiny("u4")],
     }
+}
+
+/// Chromosome-name sets, each in ascending byte order: names that are prefixes of one another;
+/// names of 255, 256 and 1000 bytes (the key size of the chromosome tree is the longest name);
+/// multi-byte UTF-8 names; one very long and one one-letter name.
+pub fn name_sets() -> Vec<Vec<String>> {
+    vec![
+        vec!["chr".into(), "chr1".into(), "chr10".into(), "chr100".into()],
+        vec!["L".repeat(255), "L".repeat(256), "M".repeat(1000)],
+        vec!["chr\u{e9}".into(), "chr\u{3b1}".into(), "chr\u{3b2}\u{3b2}".into()],
+        vec!["a".into(), "z".repeat(300)],
+    ]
+}
+
+fn names_cases(bed: bool) -> Vec<FileCase> {
+    let mut v = vec![];
+    for set in 0..name_sets().len() as u32 {
+        for lay in 0..3u32 {
+            for (ips, bs) in [(1u32, 2u32), (1024, 256)] {
+                for two_pass in [false, true] {
+                    for src in [SrcKind::Iter, SrcKind::SerialText, SrcKind::ParallelFile] {
+                        let mut o = Opts::base();
+                        o.ips = ips;
+                        o.bs = bs;
+                        o.two_pass = two_pass;
+                        o.src = src;
+                        o.compress = (set + lay) % 2 == 0;
+                        o.zoom = Zoom::Manual(vec![4]);
+                        v.push(if bed { FileCase::BedNames { set, lay, opts: o } } else { FileCase::WigNames { set, lay, opts: o } });
+                    }
+                }
+            }
+        }
+    }
+    v
 }
 
 fn uneven_cases(bed: bool) -> Vec<FileCase> {
@@ -345,7 +428,7 @@ pub fn wig_family(tier: Tier) -> Box<dyn Iterator<Item = FileCase>> {
             big.push(FileCase::WigBig { n, opts: o });
         }
     }
-    Box::new(a.chain(b).chain(big.into_iter()).chain(many_cases(false, quick).into_iter()).chain(uneven_cases(false).into_iter()))
+    Box::new(a.chain(b).chain(big.into_iter()).chain(many_cases(false, quick).into_iter()).chain(uneven_cases(false).into_iter()).chain(names_cases(false).into_iter()))
 }
 
 pub fn bed_family(tier: Tier) -> Box<dyn Iterator<Item = FileCase>> {
@@ -395,7 +478,34 @@ pub fn bed_family(tier: Tier) -> Box<dyn Iterator<Item = FileCase>> {
             }
         }
     }
-    Box::new(a.chain(b).chain(big.into_iter()).chain(many_cases(true, quick).into_iter()).chain(longsql.into_iter()).chain(uneven_cases(true).into_iter()))
+    // `rest` fields longer than the 8 KiB and 64 KiB buffers on the way
+    let mut longrest = vec![];
+    for len in [8190u32, 8193, 70_000] {
+        for two_pass in [false, true] {
+            for compress in [true, false] {
+                for ips in [1u32, 1024] {
+                    for src in [SrcKind::Iter, SrcKind::SerialText] {
+                        let mut o = Opts::base();
+                        o.two_pass = two_pass;
+                        o.compress = compress;
+                        o.ips = ips;
+                        o.src = src;
+                        o.zoom = Zoom::Manual(vec![4]);
+                        longrest.push(FileCase::BedLongRest { len, opts: o });
+                    }
+                }
+            }
+        }
+    }
+    Box::new(
+        a.chain(b)
+            .chain(big.into_iter())
+            .chain(many_cases(true, quick).into_iter())
+            .chain(longsql.into_iter())
+            .chain(uneven_cases(true).into_iter())
+            .chain(names_cases(true).into_iter())
+            .chain(longrest.into_iter()),
+    )
 }
 
 /// zoom-focused option list for C07/C08
